@@ -79,11 +79,11 @@ theorem varDefsNodes_vr (vars : List VarDef) :
   | cons v vs ih =>
     simp only [List.map_cons, List.flatMap_cons, List.map_append, ih]
     congr 1
-    obtain ⟨nm, ty, df⟩ := v
+    obtain ⟨nm, ty, df, ds⟩ := v
     cases df with
-    | none => rfl
+    | none => simp only [varDefNodes, Vr.varDef, List.map_cons, List.map_append, Option.map_none, dirsNodes_vr]; rfl
     | some dv =>
-      simp only [varDefNodes, Vr.varDef, List.map_cons, List.map_append, Option.map_some, valueNodes_vr]; rfl
+      simp only [varDefNodes, Vr.varDef, List.map_cons, List.map_append, Option.map_some, valueNodes_vr, dirsNodes_vr]; rfl
 
 /-- **the nodes of the renamed definition are the renamed nodes of the definition, in the same order** -/
 theorem defNodes_vr (x : Def) : defNodes (V.defn x) = (defNodes x).map V.node := by
